@@ -50,3 +50,35 @@ def process_event_contract(w: World, from_walk: bool):
         check(ups[0].held >= 1 and commits[0].held >= 1, "both under the state lock")
         check(ups[0].args[0] == w.changed, "the update is for this manager's side")
     check(lock_held() == 0, "the lock is released afterwards")
+
+
+@lemma(props=["C10", "C06"], configs="sides", raises=["_BackoffError", "Exception"],
+       stubs={"cloudsync.event:EventManager._reconnect_if_needed": {"results": ["None"], "havoc": False},
+              "cloudsync.event:EventManager._validate_root": {"results": ["True", "False"], "havoc": False},
+              "cloudsync.event:EventManager._do_unsafe": {"results": ["None"], "havoc": False},
+              "cloudsync.event:EventManager._save_current_cursor": {"results": ["None"], "raises": False, "havoc": False}})
+def event_manager_fault_classification(w: World):
+    """L10.3 / L6.2: whatever the intake step raises -- temporary / disconnected / namespace errors are reported with this
+    side as the source and turned into a back-off; a rejected cursor resets the cursor to the provider's latest, saves
+    it and forces a full walk; an expired token sets need_auth; every one of these ends as a back-off request"""
+    em = w.event_manager(w.changed)
+    na0 = em.need_auth
+    nw0 = em.need_walk
+    try:
+        em.do()
+        raised = None
+    except BaseException as e:
+        raised = e
+    notes = calls("notify_from_exception")
+    from cloudsync.runnable import _BackoffError
+    if raised is None:
+        check(len(notes) == 0, "a clean step reports nothing")
+        check(em.need_auth == na0 and em.need_walk == nw0, "and changes no recovery flag")
+    elif isinstance(raised, _BackoffError):
+        check(len(notes) <= 1, "at most one notification per failed step")
+        for n in notes:
+            check(n.args[0] == SourceEnum(w.changed), "the notification names this side as its source")
+            check(isinstance(n.args[1], (ex.CloudTemporaryError, ex.CloudDisconnectedError, ex.CloudNamespaceError)),
+                  "and carries a temporary / disconnected / namespace error")
+        if len(calls("_save_current_cursor")) > 0:
+            check(em.need_walk is True, "a rejected cursor forces a full walk")
